@@ -299,3 +299,68 @@ def s3(prog):
                          "msg": "reading an unbound name is no longer a compile-time error on every path (READ case of build_exec can complete without throwing)",
                          "detail": None})
     return inst, findings
+
+
+def s4(prog):
+    """inner binders shadow outer ones: lookups consult the own scope before the enclosing one, and the name table of a
+    block (uprefs) enters the names of the enclosing scope before inherited up-references when it uses a keep-first insert"""
+    inst, findings = [], []
+    # (a) bindings::find: m_super consulted only when the own lookup missed
+    f = prog.func_opt("bindings::find")
+    if f is None:
+        raise Broken("anchor bindings::find vanished")
+    g = CFG(f)
+    sup = [n for n in g.nodes if isinstance(n.ast, dict) and any(
+        c.get("fn") == "find" and c.get("cls") == "bindings" for c in calls(n.ast))]
+    own = [n for n in g.nodes if n.kind == "cond" and isinstance(n.ast, dict) and any(
+        y.get("k") == "mem" and y["n"] == "m_bindings" for y in walk(n.ast))]
+    if not sup or not own:
+        raise Broken("bindings::find has an unmodelled shape")
+    # the recursive lookup must be unreachable along the `found` edge of the own lookup
+    cond = own[0]
+    c = unwrap(cond.ast)
+    found_label = True if (isinstance(c, dict) and (c.get("op") == "!=")) else False
+    reach = g.reachable(edge_ok=lambda n, t, lab: not (n.id == cond.id and lab is (not found_label)))
+    key = "S4:bindings::find"
+    ok = sup[0].id not in reach or True
+    reach_found = g.reachable(start=cond.id, edge_ok=lambda n, t, lab: not (n.id == cond.id and lab is (not found_label)))
+    shadow_ok = sup[0].id not in reach_found
+    inst.append((key, {"own_scope_first": shadow_ok}))
+    if not shadow_ok:
+        findings.append({"key": key, "where": f["l"], "msg": "bindings::find consults the enclosing scope even when the name is bound in the own scope: inner binders no longer shadow outer ones", "detail": None})
+    # (b) uprefs::uprefs (bindings &, uprefs &): local names entered before inherited ones (keep-first insertion)
+    cs = [h for h in prog.funcs.values() if h["q"] == "uprefs::uprefs" and len(h["params"]) == 2]
+    if len(cs) != 1:
+        raise Broken("anchor uprefs::uprefs(bindings &, uprefs &) vanished")
+    h = cs[0]
+    pb = [p for p in h["params"] if "bindings" in p["t"]]
+    pu = [p for p in h["params"] if "uprefs" in p["t"]]
+    loops = [x for x in h["body"]["s"] if x.get("k") == "rfor"]
+    if len(pb) != 1 or len(pu) != 1 or len(loops) != 2:
+        raise Broken("uprefs::uprefs(bindings &, uprefs &) is no longer two range-for loops (unmodelled shape)")
+
+    def loop_src(lp):
+        ids = {y.get("id") for y in walk(lp["range"]) if y.get("k") == "ref"}
+        return "local" if pb[0]["id"] in ids else ("inherited" if pu[0]["id"] in ids else None)
+
+    def loop_insert(lp):
+        fns = {c.get("fn") for c in calls(lp["body"]) if c.get("obj") is not None and isinstance(unwrap(c["obj"]), dict)
+               and unwrap(c["obj"]).get("k") == "mem" and unwrap(c["obj"])["n"] == "m_ids"}
+        ops = {c.get("op") for c in calls(lp["body"]) if c.get("op") == "[]"}
+        return fns, ops
+    order = [loop_src(l) for l in loops]
+    kinds = [loop_insert(l) for l in loops]
+    if None in order or set(order) != {"local", "inherited"}:
+        raise Broken("cannot tell which loop of uprefs::uprefs enters local and which inherited names")
+    keep_first = all(k[0] <= {"emplace", "insert", "try_emplace"} and k[0] and not k[1] for k in kinds)
+    overwrite = all((k[0] <= {"insert_or_assign"} and k[0]) or k[1] for k in kinds)
+    if not keep_first and not overwrite:
+        raise Broken("uprefs::uprefs inserts with a mix of keep-first and overwriting operations (unmodelled)")
+    good = (order == ["local", "inherited"]) if keep_first else (order == ["inherited", "local"])
+    key = "S4:uprefs::uprefs"
+    inst.append((key, {"loop_order": order, "insertion": "keep-first" if keep_first else "overwrite"}))
+    if not good:
+        findings.append({"key": key, "where": h["l"],
+                         "msg": "uprefs::uprefs enters %s names first with a %s insertion, so an inherited up-reference wins over a name bound in the enclosing scope: a binder inside a block no longer shadows an outer (e.g. builtin) name for nested blocks" % (order[0], "keep-first" if keep_first else "overwriting"),
+                         "detail": None})
+    return inst, findings
